@@ -162,6 +162,18 @@ impl Gen {
     }
 
     fn payload_len(&mut self) -> usize {
+        // with real-size (128 MiB) WAL files, scale the bigger payloads so that a history
+        // rolls over as often as it does with the 128 KiB files of the `verif` feature
+        let scale = (self.cfg.file_size / 131_072).max(1) as usize;
+        let l = self.payload_len_unscaled();
+        if scale > 1 && l >= 2_000 {
+            l * scale
+        } else {
+            l
+        }
+    }
+
+    fn payload_len_unscaled(&mut self) -> usize {
         let r = &mut self.rng;
         match self.cfg.profile {
             Profile::Dense => r.usize(0, 64),
